@@ -506,6 +506,18 @@ class Lowering:
             v = ("bv", self.fresh(), "_map")
             src = next(a for a in args[1:] if not _rep(a))
             return ("comp", "gen", self.norm_call(("call", args[0], tuple(a[2][0] if _rep(a) else v for a in args[1:]), ())), ((v, src, ()),))
+        if op(func) == "attr" and func[2] == "__getitem__" and len(args) == 1 and not kws and op(args[0]) != "star":
+            return self.mk_item(func[1], args[0])
+        if fname == "itertools.compress" and len(args) == 2 and not kws and op(args[1]) == "comp" and args[1][1] in ("gen", "list") and len(args[1][3]) == 1 and not args[1][3][0][2]:
+            # compress(xs, (P(y) for y in ys)) with ys computed element by element from the same xs is a filter of xs
+            data, sel = args
+            stgt, ssrc, _ = sel[3][0]
+            x = ("bv", self.fresh(), "_compress")
+            if ssrc == data:
+                return ("comp", "gen", x, ((x, data, (substitute(sel[2], {stgt: x}),)),))
+            if op(ssrc) == "comp" and ssrc[1] in ("gen", "list") and len(ssrc[3]) == 1 and not ssrc[3][0][2] and ssrc[3][0][1] == data:
+                inner = substitute(ssrc[2], {ssrc[3][0][0]: x})
+                return ("comp", "gen", x, ((x, data, (substitute(sel[2], {stgt: inner}),)),))
         if fname in ("operator.add", "operator.concat") and len(args) == 2 and not kws and not any(op(a) == "star" for a in args):
             return ("bin", "+", args[0], args[1])
         if fname == "itertools.chain.from_iterable" and len(args) == 1 and not kws and op(args[0]) == "comp" and args[0][1] in ("gen", "list") and op(args[0][2]) == "comp" and args[0][2][1] in ("gen", "list"):
